@@ -259,6 +259,13 @@ macro_rules! define_lagrange { ($name:ident, $n0:ident, $n1:ident, $n2:ident, $n
         // there is room for the sign bit.
         let mut first = true;
 
+        // The end condition of the second loop (a "stuck" value of sp)
+        // must also be checked in the first loop: when the minimal-size
+        // vector is very short (e.g. k is a small integer), nu never
+        // shrinks enough to exit the first loop.
+        let mut last_bl_sp = u32::MAX;
+        let mut stuck = 0u32;
+
         // First algorithm loop, to shrink values enough to fit in type $n2.
         loop {
             // If u is smaller than v, then swap u and v.
@@ -283,6 +290,15 @@ macro_rules! define_lagrange { ($name:ident, $n0:ident, $n1:ident, $n2:ident, $n
             // Compute this amount s = len(sp) - len(nv)
             // (if s < 0, it is replaced with 0).
             let bl_sp = sp.bitlength();
+            if bl_sp >= last_bl_sp {
+                stuck += 1;
+                if bl_sp > last_bl_sp || stuck > 3 {
+                    return (v0.0, v1.0);
+                }
+            } else {
+                last_bl_sp = bl_sp;
+                stuck = 0;
+            }
             let mut s = bl_sp.wrapping_sub(bl_nv);
             s &= !(((s as i32) >> 31) as u32);
 
